@@ -12,11 +12,18 @@ LEVEL_TEXT = ("Coq theorems. History level, in the standard shape for known find
               "viol_C05 run on the model's trace never reports F05_alive, i.e. the model never emits ServiceRemoved while "
               "PTR, SRV and address of the SRV's host have more than 1 s left at every snapshot of the iteration (proof: C03 "
               "cache invariant + spec cache = model cache carried through every step); one vm_compute witness per known "
-              "class (PTR variant, second SRV target, expiry hidden by an expiring PTR). Cache level, all states: eviction "
+              "class (PTR variant, second SRV target, expiry hidden by an expiring PTR, stop_browse of a second PTR name). "
+              "C05_no_resolved_again_partial - same quantifier plus the well-formedness condition fresh_channels (every browse "
+              "call uses a new, larger channel number; the driver checks it on every case): viol_C05 never reports F05_again, "
+              "i.e. no ServiceResolved of an instance on a channel after its ServiceRemoved there unless a record of the "
+              "instance or of its host was delivered in between (invariant DI tying the checker's dead list to the model "
+              "cache: a dead instance is not strongly alive or a relevant delivery is logged; liveness only decreases when "
+              "the cache shrinks, as time goes by, and under deliveries that do not concern the instance; what is reported "
+              "resolved is strongly alive). Cache level, all states: eviction "
               "removes exactly the expired records; expired PTRs and SRV expiry are reported under every PTR name; reports "
               "only when true; loss of the last address reported under every browsed name; goodbye = exactly +1000 ms; "
-              "verify shortens to now + timeout and an answer restores. Timeliness (F05_dead), no-resolve-after-remove "
-              "(F05_again) and the wake-up clause are monitor-checked on every generated history, not theorems. Model tied "
+              "verify shortens to now + timeout and an answer restores. Timeliness (F05_dead) and the wake-up clause "
+              "(F05_wake) are monitor-checked on every generated history, not theorems. Model tied "
               "to the Rust daemon by the K6 simulation")
 TECHNIQUE = ("machine-checked proof in Coq (eviction / goodbye / verify specifications, refutation witnesses) + "
              "model/implementation correspondence on the simulated daemon + history-level monitor with virtual timestamps")
@@ -27,14 +34,18 @@ RULE = ("announcement / goodbye / silence histories of 1-3 instances and respond
         "verify with timeouts 500 ms .. 10 s answered or not, hosts shared between instances and spelled in mixed case, "
         "address-only goodbyes and addresses with shorter TTL than SRV/PTR, restarts (goodbye then announcement within "
         "a second), stop/re-browse; special classes: instance under type and subtype PTR with the SRV running out first "
-        "or the address running out first (both must agree exactly: no hash-order dependence left), PTR delivered "
+        "or the address running out first (both must agree exactly: no hash-order dependence left), stop_browse of one of "
+        "the two names (known finding) with or without the records coming back, PTR delivered "
         "with and without cache-flush bit; non-trivial = at least one event")
 TRUSTED = bc.TRUSTED_COMMON
-PARTIAL = ("Of viol_C05's failure kinds only F05_alive (safety) is excluded by a history-level theorem. Not proved over "
-           "histories: F05_dead (removal on time: needs an invariant tying the checker's 'up' list to the model's resolved set "
-           "and the order of events inside an iteration; extra classes to exclude: expiry hidden by an expiring PTR, "
-           "stop_browse of a second PTR name of an instance), F05_again (needs: liveness only decreases without a delivery "
-           "of a record of the instance; fresh channel numbers), F05_wake (the model does not compute timers). They are "
+PARTIAL = ("Of viol_C05's failure kinds F05_alive and F05_again (the two safety clauses) are excluded by history-level "
+           "theorems, for histories outside known_ptr_variant / known_srv_targets (inside these classes F05_again is neither "
+           "proved nor refuted; no generated history of them fails it). Not proved over histories: F05_dead (removal on "
+           "time: needs an invariant tying the checker's 'up' list to the model's resolved set and the order of events "
+           "inside an iteration; classes to exclude: expiry hidden by an expiring PTR, and stop_browse of a second PTR name "
+           "of an instance - decided in round 5 to be a finding, C05-stop-browse-drops-shared-records: the daemon drops the "
+           "instance's SRV/TXT/address records, tells nobody, and a silent departure is then reported at the PTR's TTL "
+           "instead of the SRV's; confirmed on the daemon), F05_wake (the model does not compute timers). They are "
            "checked by the monitor on every generated history of model and implementation. 'Live' means more than 1 s of "
            "TTL left (expires_soon convention), so a ServiceRemoved up to 1 s before the true expiry is accepted. Exact "
            "times are statements about timer-exact schedules. Interface removal (C18) is outside the model.")
@@ -48,6 +59,7 @@ KNOWN = {
     "alive:ptr-variant": "C05-ptr-variant-expiry",
     "alive:srv-targets": "C05-second-srv-target",
     "dead:ptr-last-second": "C05-expiry-hidden-by-expiring-ptr",
+    "dead:stopped-second-name": "C05-stop-browse-drops-shared-records",
 }
 
 
@@ -66,6 +78,7 @@ def generate(rng, tier):
         ("twotypesaddr", 20 * k, lambda r, i: bc.gen_special(r, i, "two-types-addr")),
         ("srvtargets", 30 * k, lambda r, i: bc.gen_special(r, i, "srv-targets")),
         ("ptrvar", 30 * k, lambda r, i: bc.gen_special(r, i, "ptr-variant")),
+        ("stopname", 30 * k, lambda r, i: bc.gen_special(r, i, "stop-second-name")),
     ])
 
 
